@@ -159,6 +159,7 @@ type Engine struct {
 	doms           map[string]*bitset
 	facts          map[string]bool
 	parseResult    *Value
+	parseBroken    bool // the key-set file holds an entry the library cannot parse
 	depthIsFinding bool
 	domHits        int
 	bufs           map[*Value][]bufSeg
@@ -433,6 +434,7 @@ func (e *Engine) resetPath(prefix []bool) {
 	e.doms = map[string]*bitset{}
 	e.facts = map[string]bool{}
 	e.parseResult = nil
+	e.parseBroken = false
 	e.depthIsFinding = false
 	e.bufs = map[*Value][]bufSeg{}
 	e.sbufs = map[*Value]StrVal{}
